@@ -57,6 +57,9 @@ let run_script cfgw ops =
       | "C" :: f :: r -> emit (show_out (st s (OClear (f = "1")))); go r
       | "T" :: r -> emit (show_out (st s OTraverse)); go r
       | "U" :: r -> emit (show_out (st t OTraverse)); go r
+      | "O" :: r ->
+        let l = all s in
+        emit ("[{" ^ String.concat "," (List.map (fun (k, v) -> sz k ^ ":" ^ sz v) l) ^ "}]"); go r
       | "N" :: r -> emit (show_out (st s OCount)); go r
       | "Y" :: r -> emit (show_out (st s OCopy)); go r
       | "M" :: r -> emit "u"; go r
